@@ -317,9 +317,9 @@ func isOpaqueStruct(t types.Type) bool {
 	return !(p == repoModule || strings.HasPrefix(p, repoModule+"/"))
 }
 
+// isRepoStruct: struct-typed values are embedded sub-objects (identity sub(owner, field)), whatever
+// package declares them; their fields live in the heap maps of their own type.
 func isRepoStruct(t types.Type) bool {
-	if _, ok := t.Underlying().(*types.Struct); !ok {
-		return false
-	}
-	return !isOpaqueStruct(t)
+	_, ok := t.Underlying().(*types.Struct)
+	return ok
 }
